@@ -55,7 +55,7 @@ func AddKey(ctx *runtime.Task, funcExpr *ast.CallExpr) *errchain.PlError {
 	var val any
 	var dtype ast.DType
 
-	val, dtype, errRun := runtime.RunStmt(ctx, funcExpr.Param[1])
+	val, dtype, errRun := runArg(ctx, funcExpr.Param[1])
 	if errRun != nil {
 		return errRun.ChainAppend(ctx.Name(), funcExpr.NamePos)
 	}
